@@ -1,10 +1,12 @@
 SPECIFICATION Spec
-INVARIANTS OrderIndependent EachListedOnce PrefixMonotone OwnMinListed
+INVARIANTS OrderIndependent EachListedOnce PrefixMonotone OwnMinListed Isolated
 CHECK_DEADLOCK FALSE
 CONSTANTS
   MaxRecs = 3
   Ctrs = {1, 2}
   Depths = {0, 3}
   Mins = {0, 1, 2, 3, 4}
+  NProgs = 2
+  ToolProgs = {1}
   Known1 = {1, 2, 4, 5}
   Known2 = {1, 3, 4, 5}
